@@ -7,7 +7,7 @@ From Coq Require Import NArith ZArith Ascii String.
 From PM Require Import Model.Varint Model.Directory Model.Iterate Model.TileId Gen.Generated Model.Header Model.FindTile Model.DirBuild Model.DirBuildF32 Model.Resolver Model.Archive Model.Verify Model.Cluster Model.PathParse Model.PathSafe Model.Bucket Model.Http Model.Server Model.ServerRun Model.F32 Model.Extract Model.ExtractCmd Model.F64 Model.Edit Model.Sync Model.Convert Model.Region.
 From Flocq Require Import IEEE754.Bits.
 Extraction "model.ml"
-  N.add N.mul N.sub N.div_eucl N.of_nat N.to_nat N.compare N.eqb Z.add Z.mul Z.div_eucl Z.of_N Z.to_N Z.opp
+  N.add N.mul N.sub N.div_eucl N.of_nat N.to_nat N.compare N.eqb Z.add Z.mul Z.div_eucl Z.of_N Z.to_N Z.opp Z.abs Z.leb Z.ltb Z.sub
   put_uvarint read_uvarint serialize_entries deserialize_entries deserialize_res
   iterate_table
   zxy_to_id id_to_zxy parent_id
